@@ -109,3 +109,9 @@ Proof. intros. repeat split; first [apply link_FixedPointAccumulator | apply lin
                                    | apply link_po2_to_qbits | apply link_po2_qbits_converter | apply link_FixedPointAdder
                                    | apply link_Po2FixedPointAdder | apply link_Po2Adder | apply link_FloatingPointAdder]. Qed.
 Print Assumptions C17_source_rules_are_the_model.
+
+(* the exponent range of a power-of-two type, as /repo computes it now (get_exp regenerated on this run), is the
+   get_exp of the model: min exponent from the exponent bits, max exponent capped by ceil(log2 max_value) *)
+Theorem C17_source_get_exp : forall t, gen_get_exp t = get_exp t.
+Proof. exact link_get_exp. Qed.
+Print Assumptions C17_source_get_exp.
